@@ -486,6 +486,29 @@ impl<'de, R: Read<'de>> Parser<R> {
             .and_then(|o| o.ok_or_else(|| self.peek_error(ErrorCode::EofWhileParsingValue)))
     }
 
+    /// Turn a name into a token, taking into account the options that give
+    /// some names a special reading (`name:` keywords, `nil` and `t`). This
+    /// must not depend on how the name starts.
+    fn name_token(&self, mut name: String) -> Token {
+        if self.options.keyword_syntax(KeywordSyntax::ColonPostfix) && name.ends_with(':') {
+            name.pop();
+            Token::Keyword(name.into())
+        } else if self.options.nil_symbol() != NilSymbol::Default && name == "nil" {
+            match self.options.nil_symbol() {
+                NilSymbol::EmptyList => Token::Null,
+                NilSymbol::Special => Token::Nil,
+                NilSymbol::Default => unreachable!(),
+            }
+        } else if self.options.t_symbol() != TSymbol::Default && name == "t" {
+            match self.options.t_symbol() {
+                TSymbol::True => Token::Bool(true),
+                TSymbol::Default => unreachable!(),
+            }
+        } else {
+            Token::Symbol(name.into())
+        }
+    }
+
     fn parse_token(&mut self, peek: u8) -> Result<Token> {
         let token = match peek {
             b'#' => {
@@ -515,7 +538,8 @@ impl<'de, R: Read<'de>> Parser<R> {
                     Some(b'x') => Token::Number(self.parse_radix_literal(16)?),
                     Some(b'\\') => Token::Char(self.read.parse_r6rs_char(&mut self.scratch)?),
                     Some(b'%') if self.options.racket_hash_percent_symbols => {
-                        Token::Symbol(self.parse_symbol_suffix("#%")?.into())
+                        let name = self.parse_symbol_suffix("#%")?;
+                        self.name_token(name)
                     }
                     Some(_) => return Err(self.peek_error(ErrorCode::ExpectedSomeIdent)),
                     None => return Err(self.peek_error(ErrorCode::EofWhileParsingValue)),
@@ -525,7 +549,8 @@ impl<'de, R: Read<'de>> Parser<R> {
                 self.eat_char();
                 let next = self.peek_or_null()?;
                 if next == 0 || is_delimiter(next) || is_sign_subsequent(next) {
-                    Token::Symbol(self.parse_symbol_suffix("-")?.into())
+                    let name = self.parse_symbol_suffix("-")?;
+                    self.name_token(name)
                 } else {
                     Token::Number(self.parse_num_literal(10, false)?)
                 }
@@ -534,7 +559,8 @@ impl<'de, R: Read<'de>> Parser<R> {
                 self.eat_char();
                 let next = self.peek_or_null()?;
                 if next == 0 || is_delimiter(next) || is_sign_subsequent(next) {
-                    Token::Symbol(self.parse_symbol_suffix("+")?.into())
+                    let name = self.parse_symbol_suffix("+")?;
+                    self.name_token(name)
                 } else {
                     Token::Number(self.parse_num_literal(10, true)?)
                 }
@@ -545,7 +571,7 @@ impl<'de, R: Read<'de>> Parser<R> {
                     let mut num_parser = Parser::from_slice_custom(symbol.as_bytes(), self.options);
                     match num_parser.parse_num_literal(10, true) {
                         Ok(token) => Token::Number(token),
-                        Err(_) => Token::Symbol(symbol.into()),
+                        Err(_) => self.name_token(symbol),
                     }
                 } else {
                     Token::Number(self.parse_num_literal(10, true)?)
@@ -587,28 +613,13 @@ impl<'de, R: Read<'de>> Parser<R> {
                     self.eat_char();
                     Token::Keyword(self.parse_symbol()?.into())
                 } else {
-                    Token::Symbol(self.parse_symbol()?.into())
+                    let name = self.parse_symbol()?;
+                    self.name_token(name)
                 }
             }
             b'a'..=b'z' | b'A'..=b'Z' => {
-                let mut name = self.parse_symbol()?;
-                if self.options.keyword_syntax(KeywordSyntax::ColonPostfix) && name.ends_with(':') {
-                    name.pop();
-                    Token::Keyword(name.into())
-                } else if self.options.nil_symbol() != NilSymbol::Default && name == "nil" {
-                    match self.options.nil_symbol() {
-                        NilSymbol::EmptyList => Token::Null,
-                        NilSymbol::Special => Token::Nil,
-                        NilSymbol::Default => unreachable!(),
-                    }
-                } else if self.options.t_symbol() != TSymbol::Default && name == "t" {
-                    match self.options.t_symbol() {
-                        TSymbol::True => Token::Bool(true),
-                        TSymbol::Default => unreachable!(),
-                    }
-                } else {
-                    Token::Symbol(name.into())
-                }
+                let name = self.parse_symbol()?;
+                self.name_token(name)
             }
             b'?' if self.options.char_syntax == CharSyntax::Elisp => {
                 self.eat_char();
@@ -638,11 +649,13 @@ impl<'de, R: Read<'de>> Parser<R> {
                 if !c.is_alphabetic() {
                     return Err(self.peek_error(ErrorCode::ExpectedSomeValue));
                 }
-                Token::Symbol(self.parse_symbol_scratch_suffix()?.into())
+                let name = self.parse_symbol_scratch_suffix()?;
+                self.name_token(name)
             }
             _ => {
                 if SYMBOL_EXTENDED.contains(&peek) {
-                    Token::Symbol(self.parse_symbol()?.into())
+                    let name = self.parse_symbol()?;
+                    self.name_token(name)
                 } else {
                     return Err(self.peek_error(ErrorCode::ExpectedSomeValue));
                 }
